@@ -631,6 +631,71 @@ func checkTwice(scen string, in TwiceIn) []*mc.Violation {
 	return vs
 }
 
+// ---------- lists of structs: a slice decodes element by element like its elements decode on their own ----------
+
+type ListIn struct {
+	Items    []In
+	WithPara bool
+}
+
+func checkList(scen string, in ListIn) []*mc.Violation {
+	et := reflect.TypeOf(Probe{})
+	if in.WithPara {
+		et = reflect.TypeOf(ProbeP{})
+	}
+	orig := reflect.MakeSlice(reflect.SliceOf(et), 0, len(in.Items))
+	singles := make([]reflect.Value, len(in.Items))
+	for i, it := range in.Items {
+		it.WithPara = in.WithPara
+		one := build(it)
+		orig = reflect.Append(orig, reflect.ValueOf(one).Elem())
+		var b bytes.Buffer
+		if err := control.Marshal(&b, one); err != nil {
+			return nil // the single round trip is probe-roundtrip's business
+		}
+		fresh := reflect.New(et)
+		if err := control.Unmarshal(fresh.Interface(), strings.NewReader(b.String())); err != nil {
+			return nil
+		}
+		singles[i] = fresh.Elem()
+	}
+	var buf bytes.Buffer
+	var err error
+	if p, msg := mc.Guard(func() { err = control.Marshal(&buf, orig.Interface()) }); p {
+		return []*mc.Violation{mc.V(scen, "marshal-never-panics", in, "no panic", msg)}
+	}
+	if err != nil {
+		return []*mc.Violation{mc.V(scen, "marshal-succeeds", in, "nil error", err.Error())}
+	}
+	dec := reflect.New(reflect.SliceOf(et))
+	if p, msg := mc.Guard(func() { err = control.Unmarshal(dec.Interface(), strings.NewReader(buf.String())) }); p {
+		return []*mc.Violation{mc.V(scen, "unmarshal-returns", in, "no panic", msg)}
+	}
+	if err != nil {
+		return []*mc.Violation{mc.V(scen, "list-decodes", in, "nil error", fmt.Sprintf("%v (text %q)", err, buf.String()))}
+	}
+	got := dec.Elem()
+	if got.Len() != len(in.Items) {
+		return []*mc.Violation{mc.V(scen, "list-has-one-element-per-struct", in, fmt.Sprint(len(in.Items)), fmt.Sprintf("%d (text %q)", got.Len(), buf.String()))}
+	}
+	var vs []*mc.Violation
+	for i := range in.Items {
+		for _, n := range fieldNames {
+			a, b := singles[i].FieldByName(n), got.Index(i).FieldByName(n)
+			if !fieldEqual(n, a, b) {
+				vs = append(vs, mc.V(scen, "list-element-equals-its-own-decode", in, fmt.Sprintf("element %d: %s=%+v", i, n, a.Interface()), fmt.Sprintf("%+v (text %q)", b.Interface(), buf.String())))
+			}
+		}
+		if in.WithPara {
+			a, b := singles[i].FieldByName("Paragraph").Interface().(control.Paragraph), got.Index(i).FieldByName("Paragraph").Interface().(control.Paragraph)
+			if !reflect.DeepEqual(a.Order, b.Order) || !reflect.DeepEqual(a.Values, b.Values) {
+				vs = append(vs, mc.V(scen, "list-element-equals-its-own-decode", in, fmt.Sprintf("element %d: paragraph %v", i, a.Order), fmt.Sprintf("%v", b.Order)))
+			}
+		}
+	}
+	return vs
+}
+
 func Run(r *mc.Run) {
 	r.Rule = "probe structs (19 fields: every supported kind and tag) with <= 3 (quick) / 4 (thorough) fields at a non-default value, every combination of fields and values, with and without an embedded Paragraph; pass-through documents: every interleaving of <= 2 known and <= 2 unknown fields x 6 edits. Non-trivial = at least one non-default field / at least one unknown field; distinct by construction"
 	r.Assume = []string{"'optional zero fields are omitted' is read as: a field whose text rendering is empty and that is not required does not appear (int 0 / bool false / zero Arch / zero Version render as non-empty text and are written, which the suite pins for int and bool)",
@@ -694,6 +759,39 @@ func Run(r *mc.Run) {
 			}
 			if j < 0 {
 				break
+			}
+		}
+		return true
+	})
+
+	// lists of structs: every pair (and every triple ending in one of the first few) of single-field variants
+	items := []In{{Choice: map[string]int{}}}
+	for _, n := range fieldNames {
+		for c := 1; c < len(values(n)); c++ {
+			items = append(items, In{Choice: map[string]int{n: c}})
+		}
+	}
+	items = append(items, In{Choice: map[string]int{"S": 1, "L": 1, "V": 1, "D": 1, "A": 1, "M": 1}})
+	r.Scenario("struct-lists", map[string]interface{}{"element_variants": len(items), "list_lengths": "2 and 3", "entry_points": "Marshal(slice) / Unmarshal(&slice)"}, len(items), func(i int, st *mc.Stats) bool {
+		try := func(in ListIn) {
+			st.Evals++
+			st.Traces++
+			st.Nontrivial++
+			vs := checkList("struct-lists", in)
+			if len(vs) == 0 {
+				st.Class("elementwise")
+			}
+			for _, v := range vs {
+				st.Violate(v)
+				st.Class(v.Clause)
+			}
+		}
+		for _, wp := range []bool{false, true} {
+			for j := range items {
+				try(ListIn{[]In{items[i], items[j]}, wp})
+				for k := 0; k < len(items); k += 7 {
+					try(ListIn{[]In{items[i], items[j], items[k]}, wp})
+				}
 			}
 		}
 		return true
@@ -843,6 +941,13 @@ func Replay(scenario string, raw json.RawMessage) []*mc.Violation {
 		var in TwiceIn
 		if mc.UnmarshalInput(raw, &in) == nil {
 			return checkTwice(scenario, in)
+		}
+		return nil
+	}
+	if scenario == "struct-lists" {
+		var in ListIn
+		if mc.UnmarshalInput(raw, &in) == nil {
+			return checkList(scenario, in)
 		}
 		return nil
 	}
